@@ -202,6 +202,13 @@ def build_contract(em: EmittedMethod, o, props=("C04", "C06")):
     src_exc = f"def c04_request_exc({sig}, exc):\n    return call_count(U) == 0 or (call_count(U) == 1 and {body})\n"
     src_ret = (f"def c06_return({sig}, result):\n    sc = call_result(U, 0).status_code\n    return call_count(U) == 1 and 200 <= sc and sc < 300\n")
     src_raise = (f"def c06_raise({sig}, exc):\n    if call_count(U) == 0:\n        return True\n    return error_is_classed(exc, call_result(U, 0))\n")
+    if o["body"] is None or not o["body"]["required"]:
+        # nothing the caller may leave out is required: the call never fails before its request is issued (an optional body left as None is omitted,
+        # not an error — also for operations with several request media types)
+        src_sends = f"def c04_optional_body_sends({sig}, exc):\n    return call_count(U) == 1\n"
+        cl_ = Clause.from_source("c04_optional_body_sends", src_sends, "raises", module="oracles.request", props=["C04"])
+        cl_.only_exit = "raise"  # the method's own `raise` statements (an exception of the transport itself is the transport's)
+        c.raises_.append(cl_)
     c.ensures_.append(Clause.from_source("c04_request", src_ok, "ensures", module="oracles.request", props=["C04"]))
     c.raises_.append(Clause.from_source("c04_request_exc", src_exc, "raises", module="oracles.request", props=["C04"]))
     c.ensures_.append(Clause.from_source("c06_return", src_ret, "ensures", module="oracles.request", props=["C06"]))
